@@ -104,45 +104,55 @@ def replay_emitted(ctx, res, alphabets, classify=default_classify, every=1, thin
     """spec -> code: every behaviour TLC emitted is executed on the real code (under each concrete alphabet).
     budget: when TLC emitted more behaviours than this, a seeded uniform sample of that size is replayed (the model check itself
     is always exhaustive; the evidence records how many behaviours were replayed)."""
-    drift_seen = 0
     n = 0
     docs = [d for d in res.printed if isinstance(d, dict) and "inp" in d]
     if budget is not None and len(docs) > budget:
         ctx.note(f"{res.cfg}: {len(docs)} behaviours emitted, seeded sample of {budget} replayed")
         docs = ctx.rng.sample(docs, budget)
         ctx.exhaustive_replay = False
-    prev = None
-    for doc in docs:
-        if not isinstance(doc, dict) or "inp" not in doc:
-            continue
-        n += 1
-        if prev is not None and n % 7 == 0:
-            # interleaved repetition: an earlier call repeated after other calls must still give its own answer
-            # (result caches keyed on too little, state left behind by another configuration)
-            bad, _ = nc.compare_case(prev[0], letters=prev[1], api=prev[2])
-            for ev, clause, detail in bad:
-                ctx.violation(classify(prev[0]["inp"], clause) + "/after-other-calls",
-                              f"{describe(prev[0]['inp'], prev[1], prev[2])} repeated after {describe(doc['inp'], alphabets[0], None)[:120]}: {ev}:{clause} {detail}",
-                              dict(kind="replay", doc=prev[0], letters=prev[1], api=prev[2]))
-        if every > 1 and n % every:
-            continue
-        inp = doc["inp"]
-        if thin is not None and thin(inp) > 1 and n % thin(inp):
-            continue
-        for a_i, letters in enumerate(alphabets):
-            api = api_for(inp, n + a_i)
-            bad, drift = nc.compare_case(doc, letters=letters, api=api)
-            ctx.case(dict(kind="replay", call=describe(inp, letters, api), expect=doc["trip"]),
-                     nontrivial=len(doc["trip"]) > 0 and a_i == 0)
-            drift_seen += len(drift)
-            for ev, clause, detail in bad:
-                ctx.violation(classify(inp, clause), f"{describe(inp, letters, api)} {ev}:{clause} {detail}",
-                              dict(kind="replay", doc=doc, letters=letters, api=api))
-            prev = (doc, letters, api)
-        ctx.traces += 1
+    global _RE_CFG
+    _RE_CFG = dict(alphabets=alphabets, classify=classify, every=every, thin=thin, prev=None)
+    before = ctx.extra.get("drift_behaviours", 0)
+    ctx.parallel(list(enumerate(docs, 1)), _replay_emitted_item)
+    drift_seen = ctx.extra.get("drift_behaviours", 0) - before
     if drift_seen:
         ctx.note(f"internal-state drift on {drift_seen} replayed behaviours (not a violation)")
-    return n
+    return len(docs)
+
+
+_RE_CFG = None
+
+
+def _replay_emitted_item(ctx, i, item):
+    n, doc = item
+    cfg = _RE_CFG
+    alphabets, classify, every, thin = cfg["alphabets"], cfg["classify"], cfg["every"], cfg["thin"]
+    prev = cfg["prev"]
+    if prev is not None and n % 7 == 0:
+        # interleaved repetition: an earlier call repeated after other calls must still give its own answer
+        # (result caches keyed on too little, state left behind by another configuration)
+        bad, _ = nc.compare_case(prev[0], letters=prev[1], api=prev[2])
+        for ev, clause, detail in bad:
+            ctx.violation(classify(prev[0]["inp"], clause) + "/after-other-calls",
+                          f"{describe(prev[0]['inp'], prev[1], prev[2])} repeated after {describe(doc['inp'], alphabets[0], None)[:120]}: {ev}:{clause} {detail}",
+                          dict(kind="replay", doc=prev[0], letters=prev[1], api=prev[2]))
+    if every > 1 and n % every:
+        return
+    inp = doc["inp"]
+    if thin is not None and thin(inp) > 1 and n % thin(inp):
+        return
+    for a_i, letters in enumerate(alphabets):
+        api = api_for(inp, n + a_i)
+        bad, drift = nc.compare_case(doc, letters=letters, api=api)
+        ctx.case(dict(kind="replay", call=describe(inp, letters, api), expect=doc["trip"]),
+                 nontrivial=len(doc["trip"]) > 0 and a_i == 0)
+        if drift:
+            ctx.extra["drift_behaviours"] = ctx.extra.get("drift_behaviours", 0) + len(drift)
+        for ev, clause, detail in bad:
+            ctx.violation(classify(inp, clause), f"{describe(inp, letters, api)} {ev}:{clause} {detail}",
+                          dict(kind="replay", doc=doc, letters=letters, api=api))
+        cfg["prev"] = (doc, letters, api)
+    ctx.traces += 1
 
 
 def judge_sessions(ctx, sessions, verdicts, classify=default_classify):
